@@ -5,14 +5,14 @@ R05.1 (tables) the add_* forwarding table is total and uncrossed: every paramete
       names an attribute declared by that item class (or a constructor parameter).
 R05.2 (tables) each attribute's label equals the RP66 form of the Python name it is stored under; set type <-> logical
       record type agree with RP66 V1 Appendix A.
-R05.3 (AST) set_attributes routes a plain value to `.value`, dict / AttrSetup parts to exactly `.value` / `.units`
+R05.3 (value-flow normal form, inlined) set_attributes routes a plain value to `.value`, dict / AttrSetup parts to exactly `.value` / `.units`
       through setattr on the Attribute (so converters run); AttrSetup yields every part that is not None (0, 0.0, False
       and '' included).
-R05.4 (effects, shared with C14 R14.5) the only values added at write time are the documented defaults, each guarded by
-      "not already set".
+R05.4 (semantic store inventory, sa/stores.py) every value / unit stored into an attribute by code reachable from write()
+      is stored on a path that found that attribute part unset (a default, never an overwrite of what the user set).
 R05.5 (tables) converter <-> representation code agreement of the declarations.
 R05.6 (BytesAI, shared with C06) DTIME / IDENT / ASCII / UVARI emitters are exact.
-R05.7 (AST) setters store the checker's *result*; no property getter of an Attribute stores anything (an inferred
+R05.7 (value-flow normal form) setters store the checker's *result*; no property getter of an Attribute stores anything (an inferred
       representation code is recomputed from the current value).
 """
 
